@@ -450,7 +450,13 @@ func (x *Exec) evalPseudo(name string, n *ast.CallExpr, st *State, env *Env) (Va
 		if env.old == nil {
 			panic(unsupported("old() not available here"))
 		}
-		return x.eval(n.Args[0], env.old, env), true
+		oenv := env
+		if len(env.oldNames) > 0 {
+			cp := *env
+			cp.names = mergeNames(env.names, env.oldNames)
+			oenv = &cp
+		}
+		return x.eval(n.Args[0], env.old, oenv), true
 	case "count":
 		return x.evalCount(n, st, env), true
 	case "sum":
@@ -491,6 +497,43 @@ func (x *Exec) evalPseudo(name string, n *ast.CallExpr, st *State, env *Env) (Va
 			panic(unsupported(name + "() of something that is not a scanner"))
 		}
 		return v, true
+	case "uselemma":
+		// uselemma(name, args…): instance of a lemma that is proved separately (obligation lemma.<name>); the instance is
+		// added to the assumptions and is also the value of the call. Not to be used under a quantifier.
+		id, ok := n.Args[0].(*ast.Ident)
+		if !ok {
+			panic(unsupported("uselemma: first argument must be the lemma name"))
+		}
+		var lm *Lemma
+		for _, l := range x.g.cs.Lemmas {
+			if l.Name == id.Name {
+				lm = l
+			}
+		}
+		if lm == nil || len(lm.Vars) != len(n.Args)-1 {
+			panic(unsupported("uselemma: unknown lemma or wrong number of arguments: " + id.Name))
+		}
+		ne := &Env{contract: true, names: map[string]Val{}, pkg: env.pkg}
+		for i, v := range lm.Vars {
+			a := x.eval(n.Args[i+1], st, env)
+			a = x.coerce(a, x.resolveTypeText(v.Type))
+			ne.names[v.Name] = a
+		}
+		f := x.defaultType(x.eval(lm.Expr.Expr, st, ne)).T
+		x.c.assumes = append(x.c.assumes, f)
+		x.usedContracts["lemma."+lm.Name] = true
+		return Val{T: f, Ty: tBool}, true
+	case "sortperm", "sortinv":
+		// permutation of the most recent sort.Slice* call in this function: new position -> old position (sortperm) and back
+		if x.lastPerm[0] == "" {
+			panic(unsupported(name + "() without a preceding sort"))
+		}
+		v := x.defaultType(x.eval(n.Args[0], st, env))
+		f := x.lastPerm[0]
+		if name == "sortinv" {
+			f = x.lastPerm[1]
+		}
+		return Val{T: app(f, v.T), Ty: tInt}, true
 	case "recvpos":
 		h := x.eval(n.Args[0], st, env)
 		v, ok := st.gh["recvpos:"+h.T]
@@ -659,6 +702,99 @@ func (x *Exec) applySpec(sf *SpecFunc, n *ast.CallExpr, st *State, env *Env) Val
 }
 
 // count(k, lo, hi, pred): number of k in [lo,hi) with pred(k); axiomatised by one-step unfolding at the upper end.
+type absParam struct {
+	term string
+	sort string
+}
+
+// abstractArrays replaces, inside a count/sum body, every array value `(select H ref)` that is read at an index
+// depending on the bound variable (and its slice offset) by a parameter of the generated function. Equal arrays then give
+// equal counts by congruence, whatever the textual form of the heap/ref terms.
+func (x *Exec) abstractArrays(t string, params *[]absParam) string {
+	h, args, ok := splitSexp(t)
+	if !ok {
+		return t
+	}
+	add := func(term, sort string) string {
+		for i, p := range *params {
+			if p.term == term {
+				return fmt.Sprintf("$P%d", i)
+			}
+		}
+		*params = append(*params, absParam{term, sort})
+		return fmt.Sprintf("$P%d", len(*params)-1)
+	}
+	if h == "select" && len(args) == 2 && strings.Contains(args[1], "$k") {
+		if h2, a2, ok2 := splitSexp(args[0]); ok2 && h2 == "select" && len(a2) == 2 && !strings.Contains(args[0], "$k") {
+			if hs, okh := x.c.sorts[a2[0]]; okh && strings.HasPrefix(hs, "(Array Int (Array Int ") {
+				arrSort := strings.TrimSuffix(strings.TrimPrefix(hs, "(Array Int "), ")")
+				arr := add(args[0], arrSort)
+				idx := args[1]
+				if hi, ai, oki := splitSexp(idx); oki && hi == "+" && len(ai) == 2 && ai[1] == "$k" && !strings.Contains(ai[0], "$k") {
+					idx = "(+ " + add(ai[0], "Int") + " $k)"
+				} else {
+					idx = x.abstractArrays(idx, params)
+				}
+				return "(select " + arr + " " + idx + ")"
+			}
+		}
+	}
+	out := make([]string, len(args))
+	for i, a := range args {
+		out[i] = x.abstractArrays(a, params)
+	}
+	return "(" + h + " " + strings.Join(out, " ") + ")"
+}
+
+func (x *Exec) recFun(kind string, key string, isSum bool) (fn string, params []absParam) {
+	shape := x.abstractArrays(key, &params)
+	ck := kind + ":" + shape
+	for _, p := range params {
+		ck += "|" + p.sort
+	}
+	fn, ok := x.c.cntDefs[ck]
+	if ok {
+		return fn, params
+	}
+	fn = fmt.Sprintf("%s!%d", kind, len(x.c.cntDefs))
+	x.c.cntDefs[ck] = fn
+	var psorts, pdecl, pnames []string
+	body := shape
+	for i, p := range params {
+		psorts = append(psorts, p.sort)
+		pn := fmt.Sprintf("q%d", i)
+		pdecl = append(pdecl, fmt.Sprintf("(%s %s)", pn, p.sort))
+		pnames = append(pnames, pn)
+		body = strings.ReplaceAll(body, fmt.Sprintf("$P%d", i), pn)
+	}
+	ps := strings.Join(psorts, " ")
+	pd := strings.Join(pdecl, " ")
+	pa := strings.Join(pnames, " ")
+	if pa != "" {
+		pa += " "
+	}
+	x.c.declare(fn, fmt.Sprintf("(declare-fun %s (%s Int Int) Int)", fn, ps))
+	call := func(a, b string) string { return "(" + fn + " " + pa + a + " " + b + ")" }
+	at := func(k string) string { return strings.ReplaceAll(body, "$k", k) }
+	q := func(vars string) string { return "(forall (" + strings.TrimSpace(pd+" "+vars) + ") " }
+	if isSum {
+		x.c.assumes = append(x.c.assumes,
+			q("(a Int) (b Int)")+fmt.Sprintf("(! (=> (<= b a) (= %s 0)) :pattern (%s)))", call("a", "b"), call("a", "b")),
+			q("(a Int) (b Int)")+fmt.Sprintf("(! (=> (< a b) (= %s (+ %s %s))) :pattern (%s)))", call("a", "b"), call("a", "(- b 1)"), at("(- b 1)"), call("a", "b")),
+			q("(a Int) (b Int) (c Int)")+fmt.Sprintf("(! (=> (and (<= a b) (<= b c)) (= %s (+ %s %s))) :pattern (%s %s)))", call("a", "c"), call("a", "b"), call("b", "c"), call("a", "b"), call("b", "c")))
+		return fn, params
+	}
+	x.c.assumes = append(x.c.assumes,
+		q("(a Int) (b Int)")+fmt.Sprintf("(! (=> (<= b a) (= %s 0)) :pattern (%s)))", call("a", "b"), call("a", "b")),
+		q("(a Int) (b Int)")+fmt.Sprintf("(! (=> (< a b) (= %s (+ %s (ite %s 1 0)))) :pattern (%s)))", call("a", "b"), call("a", "(- b 1)"), at("(- b 1)"), call("a", "b")),
+		q("(a Int) (b Int)")+fmt.Sprintf("(! (and (<= 0 %s) (=> (<= a b) (<= %s (- b a)))) :pattern (%s)))", call("a", "b"), call("a", "b"), call("a", "b")),
+		// consequences of the definition (each provable by induction on the upper bound; stated as axioms because the
+		// solvers do not do induction): monotonicity, additivity, strictness at a counted position
+		q("(a Int) (b Int) (c Int)")+fmt.Sprintf("(! (=> (<= b c) (<= %s %s)) :pattern (%s %s)))", call("a", "b"), call("a", "c"), call("a", "b"), call("a", "c")),
+		q("(a Int) (j Int) (b Int)")+fmt.Sprintf("(! (=> (and (<= a j) (< j b) %s) (< %s %s)) :pattern (%s %s)))", at("j"), call("a", "j"), call("a", "b"), call("a", "j"), call("a", "b")))
+	return fn, params
+}
+
 func (x *Exec) evalCount(n *ast.CallExpr, st *State, env *Env) Val {
 	vn := x.bindVar(n.Args[0])
 	lo := x.defaultType(x.eval(n.Args[1], st, env)).T
@@ -666,29 +802,14 @@ func (x *Exec) evalCount(n *ast.CallExpr, st *State, env *Env) Val {
 	x.c.inContract++
 	key := x.defaultType(x.eval(n.Args[3], st, env.with(vn, Val{T: "$k", Ty: tInt}))).T
 	x.c.inContract--
-	fn, ok := x.c.cntDefs[key]
-	if !ok {
-		fn = fmt.Sprintf("cnt!%d", len(x.c.cntDefs))
-		x.c.cntDefs[key] = fn
-		x.c.declare(fn, fmt.Sprintf("(declare-fun %s (Int Int) Int)", fn))
-		pstep := strings.ReplaceAll(key, "$k", "(- b 1)")
-		pfirst := strings.ReplaceAll(key, "$k", "a")
-		x.c.assumes = append(x.c.assumes,
-			fmt.Sprintf("(forall ((a Int) (b Int)) (! (=> (<= b a) (= (%s a b) 0)) :pattern ((%s a b))))", fn, fn),
-			fmt.Sprintf("(forall ((a Int) (b Int)) (! (=> (< a b) (= (%s a b) (+ (%s a (- b 1)) (ite %s 1 0)))) :pattern ((%s a b))))", fn, fn, pstep, fn),
-			fmt.Sprintf("(forall ((a Int) (b Int)) (! (and (<= 0 (%s a b)) (=> (<= a b) (<= (%s a b) (- b a)))) :pattern ((%s a b))))", fn, fn, fn))
-		_ = pfirst
-		// consequences of the definition (each provable by induction on the upper bound; stated as axioms because the
-		// solvers do not do induction): monotonicity, additivity, strictness at a counted position
-		pj := strings.ReplaceAll(key, "$k", "j")
-		x.c.assumes = append(x.c.assumes,
-			fmt.Sprintf("(forall ((a Int) (b Int) (c Int)) (! (=> (<= b c) (<= (%s a b) (%s a c))) :pattern ((%s a b) (%s a c))))", fn, fn, fn, fn),
-			fmt.Sprintf("(forall ((a Int) (b Int) (c Int)) (! (=> (and (<= a b) (<= b c)) (= (%s a c) (+ (%s a b) (%s b c)))) :pattern ((%s a b) (%s b c))))", fn, fn, fn, fn, fn),
-			fmt.Sprintf("(forall ((a Int) (j Int) (b Int)) (! (=> (and (<= a j) (< j b) %s) (< (%s a j) (%s a b))) :pattern ((%s a j) (%s a b))))", pj, fn, fn, fn, fn))
+	fn, params := x.recFun("cnt", key, false)
+	var args []string
+	for _, p := range params {
+		args = append(args, p.term)
 	}
-	return Val{T: app(fn, lo, hi), Ty: tInt}
+	args = append(args, lo, hi)
+	return Val{T: app(fn, args...), Ty: tInt}
 }
-
 
 // dominantOffset finds the most frequent X in subterms "(+ X v)" of t.
 func dominantOffset(t, v string) string {
@@ -755,20 +876,14 @@ func (x *Exec) evalSum(n *ast.CallExpr, st *State, env *Env) Val {
 	x.c.inContract++
 	key := x.defaultType(x.eval(n.Args[3], st, env.with(vn, Val{T: "$k", Ty: tInt}))).T
 	x.c.inContract--
-	fn, ok := x.c.cntDefs["sum:"+key]
-	if !ok {
-		fn = fmt.Sprintf("sum!%d", len(x.c.cntDefs))
-		x.c.cntDefs["sum:"+key] = fn
-		x.c.declare(fn, fmt.Sprintf("(declare-fun %s (Int Int) Int)", fn))
-		pstep := strings.ReplaceAll(key, "$k", "(- b 1)")
-		x.c.assumes = append(x.c.assumes,
-			fmt.Sprintf("(forall ((a Int) (b Int)) (! (=> (<= b a) (= (%s a b) 0)) :pattern ((%s a b))))", fn, fn),
-			fmt.Sprintf("(forall ((a Int) (b Int)) (! (=> (< a b) (= (%s a b) (+ (%s a (- b 1)) %s))) :pattern ((%s a b))))", fn, fn, pstep, fn),
-			fmt.Sprintf("(forall ((a Int) (b Int) (c Int)) (! (=> (and (<= a b) (<= b c)) (= (%s a c) (+ (%s a b) (%s b c)))) :pattern ((%s a b) (%s b c))))", fn, fn, fn, fn, fn))
+	fn, params := x.recFun("sum", key, true)
+	var args []string
+	for _, p := range params {
+		args = append(args, p.term)
 	}
-	return Val{T: app(fn, lo, hi), Ty: tInt}
+	args = append(args, lo, hi)
+	return Val{T: app(fn, args...), Ty: tInt}
 }
-
 
 // ensureSpecsIn declares the spec functions referenced as spec.<name> inside a raw SMT body (scalar go-expression or smt specs)
 func (x *Exec) ensureSpecsIn(body string, env *Env, st *State) {
